@@ -27,6 +27,24 @@ CHECKS = {
         'own YaqlEngine over the read-only tables of a pristine template '
         '(validated per run against factory-fresh engines on the text pool); '
         'scheduling points are token fetches', 'DESIGN.md section 2, C01'),
+    'C08': (
+        'library-wide sweep with an instrumented endless source in every '
+        'parameter position, boundary result shapes, pipelines over endless '
+        'sources, Hypothesis grow chains with payload-size recording',
+        'Generated-input search: (a) all registered definitions x every '
+        'visible parameter position x {direct, lambda result, nested in a '
+        'list} x N, the source aborts the evaluation when pulled more than '
+        'N+1 times (Python-level pull budget, watchdog for C-level loops); '
+        '(b) Hypothesis shapes of host data and 22 expression templates at '
+        'sizes N-1, N, N+1, both directions (over => '
+        'CollectionTooLargeException, within => success, result census <= N); '
+        '(c) 70 pipeline templates over endless sources; (d) 20 grow-chain '
+        'templates under quota Q with every library payload wrapped to record '
+        'the own size of data arguments and results, and tracemalloc around '
+        'repetition. Enumerated for the sweep, sampled elsewhere.',
+        'own (shallow) size only; sys.getsizeof and tracemalloc are trusted; '
+        'size predictions use CPython 3.12 object sizes with 2x slack',
+        'DESIGN.md section 2, C08'),
     'C15': (
         'exhaustive all-pairs enumeration of a boundary corpus under every '
         'scalar operator against a reference model, law checks through yaql, '
